@@ -1,7 +1,7 @@
 //! Drivers around the code under test: read -> write conversion through the
 //! three public routes, serialisation, and extraction of the output sections.
 #![allow(dead_code)]
-use super::dump::{endian, load, RD};
+use super::dump::{endian, load, load_dwo, RD};
 use super::gen::Secs;
 use gimli::write::{self, Address, ConvertError, EndianVec, Writer};
 use gimli::RunTimeEndian;
@@ -67,6 +67,13 @@ fn convert_attributes<'a>(unit: &mut write::ConvertUnit<'_, RD<'a>>, id: write::
 }
 
 fn step_unit<'u, 'a>(unit: &mut write::ConvertUnit<'u, RD<'a>>, root_entry: write::ConvertUnitEntry<'u, RD<'a>>, api: Api, sections: &mut write::Sections<EndianVec<RunTimeEndian>>) -> Result<Result<(), write::Error>, ConvertError> {
+    step_unit_with(unit, root_entry, None, api, sections)
+}
+
+/// `skeleton_root`: for a split unit, the root entry of its skeleton unit, whose attributes
+/// (DW_AT_low_pc, DW_AT_comp_dir ... which the split unit inherits) are converted onto the output
+/// root after the split root's own, as crates/examples/src/bin/convert.rs does.
+fn step_unit_with<'u, 'a>(unit: &mut write::ConvertUnit<'u, RD<'a>>, root_entry: write::ConvertUnitEntry<'u, RD<'a>>, skeleton_root: Option<&write::ConvertUnitEntry<'_, RD<'a>>>, api: Api, sections: &mut write::Sections<EndianVec<RunTimeEndian>>) -> Result<Result<(), write::Error>, ConvertError> {
     if let Some(mut cp) = unit.read_line_program(None, None)? {
         match api {
             Api::StepSeq => {
@@ -131,6 +138,9 @@ fn step_unit<'u, 'a>(unit: &mut write::ConvertUnit<'u, RD<'a>>, root_entry: writ
     }
     let root_id = unit.unit.root();
     convert_attributes(unit, root_id, &root_entry)?;
+    if let Some(sr) = skeleton_root {
+        convert_attributes(unit, root_id, sr)?;
+    }
     let mut entry = root_entry;
     while let Some(id) = unit.read_entry(&mut entry)? {
         if id.is_none() {
@@ -212,6 +222,100 @@ pub fn convert_filtered(secs: &Secs, big: bool, required: &[String], stepwise: b
                     }
                 } else {
                     unit.convert(root_entry, &addr)?;
+                }
+            }
+            Ok(Ok(()))
+        })();
+        match r {
+            Ok(Ok(())) => {}
+            Ok(Err(e)) => return ConvOut::WriteErr(format!("{:?}", e)),
+            Err(e) => return ConvOut::ConvErr(format!("{:?}", e)),
+        }
+        match dwarf.write(&mut sections) {
+            Ok(()) => ConvOut::Ok(take(&sections)),
+            Err(e) => ConvOut::WriteErr(format!("{:?}", e)),
+        }
+    })
+}
+
+/// Routes through the split-DWARF conversion.
+#[derive(Clone, Copy, Debug, PartialEq, Eq)]
+pub enum SplitApi {
+    /// `convert_split` + stepwise conversion with `read_row`, written by `Dwarf::write`
+    StepRow,
+    /// `convert_split` + stepwise conversion with `read_sequence`, written by `ConvertUnit::write`
+    StepSeq,
+    /// `convert_split` + `ConvertUnit::convert` on the split unit, then the skeleton root's attributes
+    Bulk,
+}
+impl SplitApi {
+    pub fn name(self) -> &'static str {
+        match self {
+            SplitApi::StepRow => "stepwise(read_row)",
+            SplitApi::StepSeq => "stepwise(read_sequence)",
+            SplitApi::Bulk => "ConvertUnit::convert",
+        }
+    }
+}
+
+fn split_one<'u, 'a>(su: &mut write::ConvertUnit<'u, RD<'a>>, sroot: write::ConvertUnitEntry<'u, RD<'a>>, skeleton_root: &write::ConvertUnitEntry<'_, RD<'a>>, api: SplitApi, sections: &mut write::Sections<EndianVec<RunTimeEndian>>) -> Result<Result<(), write::Error>, ConvertError> {
+    match api {
+        SplitApi::StepRow => step_unit_with(su, sroot, Some(skeleton_root), Api::StepRow, sections),
+        SplitApi::StepSeq => step_unit_with(su, sroot, Some(skeleton_root), Api::StepSeq, sections),
+        SplitApi::Bulk => {
+            su.convert(sroot, &addr)?;
+            let root_id = su.unit.root();
+            convert_attributes(su, root_id, skeleton_root)?;
+            Ok(Ok(()))
+        }
+    }
+}
+
+fn name_is_required<'a>(unit: gimli::read::UnitRef<'_, RD<'a>>, v: Option<gimli::read::AttributeValue<RD<'a>>>, required: &[String]) -> bool {
+    match v.and_then(|v| unit.attr_string(v).ok()) {
+        Some(s) => required.iter().any(|r| r.as_bytes() == s.slice()),
+        None => false,
+    }
+}
+
+/// Convert a main file whose units are skeleton units, each with its split full unit in `dwo`
+/// (loaded like a consumer loads a .dwo: `Dwarf::load` with the .dwo section names, `make_dwo`).
+/// `required`: None = `ConvertUnit::convert_split`; Some(names) = `FilterUnitSection::new_split`,
+/// `require_entry` for every entry whose DW_AT_name (any string form) is listed, then
+/// `ConvertUnit::convert_split_with_filter`.
+pub fn convert_split(main: &Secs, dwo: &Secs, big: bool, api: SplitApi, required: Option<&[String]>) -> Result<ConvOut, Panic> {
+    mcx::guard(|| {
+        let parent = load(main, big);
+        let dwo = load_dwo(dwo, big, &parent);
+        let mut sections = write::Sections::new(EndianVec::new(endian(big)));
+        let mut dwarf = write::Dwarf::default();
+        let r = (|| -> Result<Result<(), write::Error>, ConvertError> {
+            let mut convert = dwarf.convert(&parent)?;
+            while let Some((mut unit, root_entry)) = convert.read_unit()? {
+                if unit.read_unit.dwo_id.is_none() {
+                    if let Err(e) = step_unit(&mut unit, root_entry, Api::StepRow, &mut sections)? {
+                        return Ok(Err(e));
+                    }
+                    continue;
+                }
+                let mut convert_split = match required {
+                    None => unit.convert_split(&dwo)?,
+                    Some(required) => {
+                        let mut filter = write::FilterUnitSection::new_split(&dwo, unit.read_unit)?;
+                        while let Some(mut fu) = filter.read_unit()? {
+                            let mut entry = fu.null_entry();
+                            while fu.read_entry(&mut entry)? {
+                                if name_is_required(entry.read_unit, entry.attr_value(gimli::DW_AT_name), required) {
+                                    fu.require_entry(entry.offset);
+                                }
+                            }
+                        }
+                        unit.convert_split_with_filter(filter)?
+                    }
+                };
+                let (mut su, sroot) = convert_split.read_unit()?;
+                if let Err(e) = split_one(&mut su, sroot, &root_entry, api, &mut sections)? {
+                    return Ok(Err(e));
                 }
             }
             Ok(Ok(()))
